@@ -524,3 +524,29 @@ META["C19"] = dict(
     },
     assumptions=["the fixture is owned by the (capability-dropped) root user, so owner permission bits decide"],
 )
+
+META["C07"] = dict(
+    title="Equivalent ways of declaring a nested group behave identically",
+    level="exploration",
+    level_text="4-version comparator: a generated field list (1-5 fields over 16 annotations; required, ordinary, falsy and None "
+    "defaults; optionally a nested dataclass field with overridden defaults placed before other fields) is declared as dotted "
+    "arguments, as a dataclass-typed argument, as class arguments under the key and as an inner parser (dataclass and class "
+    "written to a real source file); the same input through 11 channels (dotted argv in = and space form, whole-group JSON, "
+    "group JSON followed by dotted overrides, config string, --cfg, nested and dotted objects, dotted / whole-group / mixed "
+    "environment variables), valid, with one invalid value, null for a field, or an unknown field, must give the same decision, "
+    "the same nested values (type for type) and byte-identical dumps.",
+    level_note="Whole-group argv/env items are compared among the three styles that declare a group option (the dotted style has "
+    "none); error texts are not compared; instantiation is out of scope.",
+    shards=g(4, 16),
+    budget=g(40, 240),
+    technique="N-version differential across declaration styles (decision, values, dump bytes)",
+    rule="a case is (channel, field list as (annotation, default) tuples, nested group present, input invalid?, names given); "
+    "distinct by hash; non-trivial = all compared styles reached a decision.",
+    gates={
+        "mon.style_comparisons": g(1500, 15000), "st.all_accepted": g(500, 5000), "st.all_rejected": g(200, 2000), "mon.dumps_identical": g(400, 4000),
+        "st.channel.argv-dotted": g(80, 800), "st.channel.argv-group-json": g(80, 800), "st.channel.env-dotted": g(80, 800),
+        "st.channel.env-group+dotted": g(80, 800), "st.channel.object": g(80, 800), "st.channel.config-string": g(80, 800),
+        "st.field.required": g(200, 2000), "st.field.falsy-default": g(100, 1000),
+    },
+    assumptions=["null given for a field is an invalid value unless the field is Optional"],
+)
